@@ -862,6 +862,9 @@ type SortCase struct {
 	CVals []string `json:"child_vals,omitempty"`
 	Asc   bool     `json:"asc"`
 	CAsc  bool     `json:"child_asc"`
+	// Rot > 0: afterwards the list is overwritten in place (Set, same length) with its own values rotated by Rot
+	// positions and sorted again: the order must be that of the new content
+	Rot int `json:"rot,omitempty"`
 }
 
 // cmpElem is the oracle's order: integers and floats numerically (no NaN by construction), strings bytewise.
@@ -962,6 +965,9 @@ func drawSortCase(t *rapid.T) SortCase {
 			c.CVals[i] = calpha[k]
 		}
 	}
+	if rapid.IntRange(0, 2).Draw(t, "rotate?") == 0 {
+		c.Rot = rapid.IntRange(1, 7).Draw(t, "rot")
+	}
 	return c
 }
 
@@ -1040,6 +1046,26 @@ func runSortCase(c SortCase) *pbt.Result {
 			return pbt.Fail("Filtering(sorted indices): %v", err)
 		}
 	}
+	if n := len(vals); c.Rot > 0 && n >= 2 {
+		rot := make([]elem, n)
+		for i := range vals {
+			rot[i] = vals[(i+c.Rot)%n]
+			setFlavour(a.any, c.T, i, arg{i: rot[i].i, f: rot[i].f, s: rot[i].s})
+		}
+		if err := sameSeq(c.T, a.toArray(), rot); err != nil {
+			return pbt.Fail("after overwriting the list in place: %v", err)
+		}
+		for _, asc := range []bool{c.Asc, !c.Asc, c.Asc} {
+			if err := validOrder("Sorting after the list was overwritten in place (same length)", a.any.Sorting(asc), c.T, rot, asc, "", nil, false); err != nil {
+				return &pbt.Result{Err: err}
+			}
+		}
+		if child != nil {
+			if err := validOrder("SortingAnyList after the list was overwritten in place", a.any.SortingAnyList(c.Asc, child.any, c.CAsc), c.T, rot, c.Asc, c.CT, cvals, c.CAsc); err != nil {
+				return &pbt.Result{Err: err}
+			}
+		}
+	}
 	dupPrimary := false
 	seen := map[string]bool{}
 	for _, e := range vals {
@@ -1076,7 +1102,7 @@ func runSortCase(c SortCase) *pbt.Result {
 
 var specSorting = pbt.Register(pbt.Spec[SortCase]{
 	Prop: "C13", Name: "sorting",
-	Rule:  "lists of 0-300 values (lengths on both sides of sort.Sort's insertion-sort limit) over an alphabet of 1-6 values (extremes, ±0, ±Inf, no NaN, empty string) so duplicates abound; 80% with a child list of any of the five types (numeric children within ±2^53); all four direction combinations; Sorting and SortingAnyList results must be a permutation of 0..n-1 whose consecutive elements are ordered by (primary, then child) in the requested directions; lists unchanged; Filtering(result) is the list in that order; non-trivial = >= 2 equal primary keys; distinct by whole case",
+	Rule:  "lists of 0-300 values (lengths on both sides of sort.Sort's insertion-sort limit) over an alphabet of 1-6 values (extremes, ±0, ±Inf, no NaN, empty string) so duplicates abound; 80% with a child list of any of the five types (numeric children within ±2^53); all four direction combinations; Sorting and SortingAnyList results must be a permutation of 0..n-1 whose consecutive elements are ordered by (primary, then child) in the requested directions; lists unchanged; Filtering(result) is the list in that order; in a third of the cases the list is then overwritten in place (Set, same length) with its values rotated by 1-7 positions and sorted again in both directions and with the child: the orders must be those of the new content; non-trivial = >= 2 equal primary keys; distinct by whole case",
 	Quick: 15000, Thorough: 2000000,
 	Draw: drawSortCase, Run: noPanic(runSortCase),
 })
